@@ -88,7 +88,8 @@ def gen_port(rng, depth):
                 else:
                     tgt = (['..'] if rng.random() < 0.4 else []) + [rng.choice(BRANCH + NEST)]
                 ents.append([k, {'$path': tgt}])
-        base = gen_target(rng, depth, 1)
+        # '_path': () - the port is split over the process's own compartment - is legal too
+        base = [] if rng.random() < 0.15 else gen_target(rng, depth, 1)
         return sch, {'$dict': {'path': base, 'c': ents}}
     # no '_path': every declared sub-key is listed
     ents = []
